@@ -3,7 +3,9 @@ import ast
 from contracts.core_parsers import M
 
 SIDECARS = ["core_parsers"]
-UNITS = [(M, "CommandParser.validate_lines"), (M, "CommandParser.__init__"), (M, "JSONParser.parse_content"), (M, "YAMLParser.parse_content")]
+UNITS = [(M, "CommandParser.validate_lines"), (M, "CommandParser.__init__"), (M, "JSONParser.parse_content"), (M, "YAMLParser.parse_content"),
+         (M, "TextFileOutput.get"), (M, "TextFileOutput.__contains__"),
+         (M, "TextFileOutput._valid_search.<locals>.<lambda>#0"), (M, "TextFileOutput._valid_search.<locals>.<lambda>#1")]
 
 
 def static_checks(repo):
